@@ -34,8 +34,8 @@ def rand_preorder(rng, m):
     return r
 
 
-def rand_lts(rng, nmax=5):
-    n = rng.choice(list(range(1, nmax + 1)))
+def rand_lts(rng, nmax=5, nmin=1):
+    n = rng.choice(list(range(nmin, nmax + 1)))
     sigma = rng.choice([1, 2, 2, 3])
     ne = rng.choice(list(range(0, 2 * n + 3)))
     edges = [[rng.randrange(n), rng.randrange(sigma), rng.randrange(n)] for _ in range(ne)]   # a bag: duplicates possible
@@ -86,7 +86,35 @@ def check_C16(tier, seed, res, replay=None):
         c["id"] = ["r", i]
         c["src"] = "random"
         cases.append(present_lts(c, rng))
+    # medium LTSs (8-14 states) judged directly by TLC: the engine's block splitting only gets going with more states
+    for i in range(3000 if tier == "thorough" else 400):
+        c = rand_lts(rng, nmax=14, nmin=8)
+        c["id"] = ["m", i]
+        c["src"] = "random-medium"
+        cases.append(present_lts(c, rng))
     nt = lambda c: c["n"] >= 2 and len(c["edges"]) > 0
     res.count_cases(cases, nt)
     res.add_samples([c for c in cases if nt(c)][:3])
     run_events(res, rd, "c16", cases, "TraceLTS.tla")
+    # large LTSs (10-45 states, several counter rows): screened in the driver for consequences of the contract, suspicious ones to TLC
+    import os
+    nb, per = (320, 400) if tier == "thorough" else (32, 250)
+    batches = [{"id": ["ltsagree", i], "op": "ltsagree", "seed": seed * 7753 + i, "count": per, "tmo": 900000} for i in range(nb)]
+    cf = os.path.join(rd, "agree.cases.ndjson")
+    vlib.write_ndjson(cf, batches)
+    events, n = [], 0
+    for sh in vlib.drive(cf, os.path.join(rd, "agree.ev"), timeout_ms=900000):
+        for ev in vlib.read_ndjson(sh):
+            if ev.get("outcome") != "ok":
+                events.append(dict(ev, op="lts", n=0, k=0, edges=[]))
+                continue
+            n += ev["res"]["count"]
+            events += ev["res"]["suspicious"]
+    res.extra["large_lts_screened"] = n
+    res.extra["large_lts_suspicious"] = len(events)
+    if events:
+        ef = os.path.join(rd, "agree.suspicious.0.ndjson")
+        vlib.write_ndjson(ef, events[:40])
+        v = vlib.tlc_validate("TraceLTS.tla", [ef], heap="6g")
+        res.add_validation(v)
+        res.report_fails(v["fails"], os.path.join(vlib.OUT, "viol"))
